@@ -187,3 +187,67 @@ def roots(body, defs, local, depth=12, seen=None):
         else:
             out |= roots(body, defs, src, depth - 1, seen)
     return out
+
+
+def provenance(body, defs, start_locals, call_names=(), all_args_names=(), max_steps=400):
+    """backward data provenance over copies / refs / casts / field reads and the calls named in
+    `call_names` (following argument 0) or `all_args_names` (following every argument).
+    Returns (set of parameter locals reached, set of stop descriptions)."""
+    from facts import callee
+    nargs = body["arg_count"]
+    seen = set()
+    params = set()
+    stops = set()
+    work = list(start_locals)
+    steps = 0
+    while work and steps < max_steps:
+        l = work.pop()
+        steps += 1
+        if l in seen:
+            continue
+        seen.add(l)
+        ds = defs.of(l)
+        if 1 <= l <= nargs:
+            params.add(l)
+        if not ds:
+            if not (1 <= l <= nargs):
+                stops.add("undef:_%d" % l)
+            continue
+        for d in ds:
+            if d[0] == "call":
+                t = d[2]
+                name = callee(t)[2]
+                if name in call_names:
+                    a = t["args"][0] if t["args"] else None
+                    if a is not None and a["k"] in ("copy", "move"):
+                        work.append(a["place"]["l"])
+                    else:
+                        stops.add("const-arg:" + str(name))
+                elif name in all_args_names:
+                    for a in t["args"]:
+                        if a["k"] in ("copy", "move"):
+                            work.append(a["place"]["l"])
+                else:
+                    stops.add("call:" + str(callee(t)[0]))
+            else:
+                rv = d[4]
+                k = rv["k"]
+                ops = []
+                if k in ("use", "cast", "repeat"):
+                    ops = [rv["op"]]
+                elif k == "ref":
+                    work.append(rv["place"]["l"])
+                elif k == "unop":
+                    ops = [rv["a"]]
+                elif k == "binop":
+                    ops = [rv["a"], rv["b"]]
+                elif k == "agg":
+                    ops = rv["ops"]
+                elif k == "discr":
+                    work.append(rv["place"]["l"])
+                for o in ops:
+                    if o.get("k") in ("copy", "move"):
+                        work.append(o["place"]["l"])
+                    elif o.get("k") == "const":
+                        stops.add("const")
+    return params, stops
